@@ -33,4 +33,12 @@ Flags(G) == (IF \E n \in Nodes(G) : n \in G.par[n] THEN {"selfloop"} ELSE {})
 Emit == phase = 1 => PrintT(ToJson([n |-> NN, kind |-> gr.kind, par |-> gr.par, st |-> gr.st, dist |-> gr.dist, supp |-> gr.supp,
                                     V |-> GFPV(gr), N |-> GFPN(gr), flags |-> Flags(gr)]))
 Theorem == phase = 1 => GfpCorrect(gr)
+\* Extension lemma (re-analysis after the graph grew): labels depend on ancestors only, so for every ANCESTOR-CLOSED set
+\* S of nodes the labelling of the graph restricted to S agrees with the labelling of the whole graph on S. Hence: analyse
+\* the part S, add the remaining nodes and edges (none of them points into S), analyse again = analyse the whole graph.
+AncClosed(G, S) == \A n \in S : G.par[n] \subseteq S
+SubG(G, S) == [kind |-> [n \in S |-> G.kind[n]], par |-> [n \in S |-> G.par[n]], st |-> [n \in S |-> G.st[n]], dist |-> [n \in S |-> G.dist[n]]]
+ExtensionLemma == phase = 1 => \A S \in SUBSET NodeSet : (S # {} /\ AncClosed(gr, S)) =>
+                                   /\ \A n \in S : GFPV(SubG(gr, S))[n] = GFPV(gr)[n]
+                                   /\ \A n \in S : GFPN(SubG(gr, S))[n] = GFPN(gr)[n]
 =============================================================================
